@@ -2,10 +2,10 @@
 from . import output as O, runtask as R
 
 META = {
-    "explanation": "The tee loop copies every chunk unchanged to a binary log and to Conductor's stream until EOF (TEE1), finish() waits "
+    "explanation": "The tee loop copies every chunk unchanged to a binary log and to Conductor's stream until EOF (TEE1), the two pipes of a task are copied concurrently (TEE2: pool size ≥ copy jobs per task), finish() waits "
                    "for it before anything else (OH1, RT2), mode table of the handlers and selection by (record_output, slot) (OH2), "
                    "stream↔file↔pipe pairing and byte pipes (RT9), args.json/options.json written iff non-empty from the declared values (JS1).",
-    "rules": ["TEE1", "OH1", "OH2", "RT9", "JS1", "RT2"],
+    "rules": ["TEE1", "TEE2", "OH1", "OH2", "RT9", "JS1", "RT2"],
     "assumptions": ["byte-exactness of the OS pipe and json round-tripping of floats are library behaviour", "interleaving between the two streams is unspecified"],
     "trusted": ["ast parser", "constant folder"],
 }
@@ -13,6 +13,7 @@ META = {
 
 def run(A, rep, tier):
     O.rule_tee1(A, rep)
+    O.rule_tee2(A, rep)
     var = O.rule_oh(A, rep)
     O.rule_rt9(A, rep, var or "record_type")
     O.rule_js1(A, rep)
